@@ -21,6 +21,7 @@ type frame struct {
 	locals    []value
 	result    value
 	visits    map[*ssa.BasicBlock]int
+	lastFork  map[*ssa.BasicBlock]int
 	callPos   token.Pos
 }
 
@@ -133,14 +134,6 @@ func (ex *Exec) ensureInit(pkg *ssa.Package) {
 	ex.callSSA(nil, token.NoPos, init, nil, nil)
 	ex.inInit--
 	ex.lim.NoPanicCheck = savedNo
-	// everything reachable from repo globals is protected (read-only after init)
-	if ex.ProtectGlobals {
-		for _, m := range pkg.Members {
-			if g, ok := m.(*ssa.Global); ok && g.Name() != "init$guard" {
-				ex.protectDeep(ex.globals[g], "global "+g.String(), map[*value]bool{})
-			}
-		}
-	}
 }
 
 // ---- calls ----
@@ -279,8 +272,18 @@ func (ex *Exec) callSSA(caller *frame, pos token.Pos, fn *ssa.Function, args []v
 
 func (ex *Exec) runBlock(fr *frame) {
 	blk := fr.block
-	fr.visits[blk]++
-	if fr.visits[blk] > ex.lim.Unwind+1 && len(blk.Preds) > 1 {
+	// only iterations that involved a symbolic decision count against the unwinding bound:
+	// loops under concrete control run as in the real program (bounded by the step budget)
+	if len(blk.Preds) > 1 {
+		if fr.lastFork == nil {
+			fr.lastFork = map[*ssa.BasicBlock]int{}
+		}
+		if last, seen := fr.lastFork[blk]; !seen || last != ex.forkSeq {
+			fr.visits[blk]++
+		}
+		fr.lastFork[blk] = ex.forkSeq
+	}
+	if fr.visits[blk] > ex.lim.Unwind+1 && len(blk.Preds) > 1 && ex.inInit == 0 {
 		panic(pathEnd{kind: "unwind", msg: fmt.Sprintf("%s block %d (%s)", fr.fn, blk.Index, ex.posOf(firstPos(blk)))})
 	}
 	// phis
@@ -311,6 +314,14 @@ func (ex *Exec) runBlock(fr *frame) {
 		ex.steps++
 		if ex.steps > ex.lim.MaxSteps {
 			panic(pathEnd{kind: "budget", msg: "step budget"})
+		}
+		if ex.TraceInstr && ex.inInit == 0 {
+			in := blk.Instrs[i]
+			if v, ok := in.(ssa.Value); ok {
+				fmt.Printf("      %s: %s = %s\n", fr.fn.Name(), v.Name(), in)
+			} else {
+				fmt.Printf("      %s: %s\n", fr.fn.Name(), in)
+			}
 		}
 		if ex.visitInstr(fr, blk.Instrs[i]) {
 			return
